@@ -51,7 +51,7 @@ let show_cls (c : cls) : string =
 
 (* project description as a flat token list *)
 let run_project (toks : string list) : string =
-  let srcdir = ref [] and sufs = ref [] and nit = ref [] and schemes = ref [] and dirhtml = ref false and allext = ref false in
+  let srcdir = ref [] and sufs = ref [] and nit = ref [] and schemes = ref [] and dirhtml = ref false and allext = ref false and cmonly = ref false in
   let files = ref [] and labels = ref [] in
   let docs = ref [] in           (* finished docs, reversed *)
   let cur = ref None in          (* (name, dir, title, slugs rev, locals rev) *)
@@ -65,11 +65,11 @@ let run_project (toks : string list) : string =
   let sel = ref None in
   let project () =
     { p_srcdir = !srcdir; p_suffixes = !sufs; p_docs = List.rev !docs; p_labels = List.rev !labels;
-      p_files = List.rev !files; p_nitpick = !nit; p_url_schemes = !schemes; p_dirhtml = !dirhtml; p_all_external = !allext } in
+      p_files = List.rev !files; p_nitpick = !nit; p_url_schemes = !schemes; p_dirhtml = !dirhtml; p_all_external = !allext; p_commonmark_only = !cmonly; p_gfm_only = false } in
   let rec go = function
-    | "S" :: a :: b :: c :: d :: e :: f :: r ->
+    | "S" :: a :: b :: c :: d :: e :: f :: g :: r ->
         srcdir := strs_of_field a; sufs := strs_of_field b; nit := strs_of_field c;
-        schemes := strs_of_field d; dirhtml := s2b e; allext := s2b f; go r
+        schemes := strs_of_field d; dirhtml := s2b e; allext := s2b f; cmonly := s2b g; go r
     | "F" :: p :: r -> files := strs_of_field p :: !files; go r
     | "D" :: n :: d :: t :: r ->
         close_doc (); cur := Some (str_of_field n, strs_of_field d, str_of_field t, [], []); go r
